@@ -121,8 +121,9 @@ H_RICH = {"X-Extra": 'v; p="q"', "Content-Language": "fr"}
 H_PRESET = {"Content-Disposition": 'form-data; name="preset"', "Content-Type": "text/x-pre", "X-Extra": "1"}
 
 
-def real_field(spec):
-    """the object handed to urllib3 for one field spec"""
+def real_field(spec, shared=None):
+    """the object handed to urllib3 for one field spec.  shared: a caller that builds ONE header dict and hands the very
+    same object to several RequestFields (equal specs -> one dict object)"""
     k = spec["k"]
     v = spec["val"][1]
     if k == "t1":
@@ -131,8 +132,10 @@ def real_field(spec):
         return (spec["name"], (spec["fn"], v))
     if k == "t3":
         return (spec["name"], (spec["fn"], v, spec["ct"]))
-    f = RequestField(spec["name"], v, filename=spec.get("fn"),
-                     headers=dict(spec["hdr"]) if spec.get("hdr") is not None else None)
+    hdr = dict(spec["hdr"]) if spec.get("hdr") is not None else None
+    if hdr is not None and shared is not None:
+        hdr = shared.setdefault(tuple(sorted(hdr.items())), hdr)
+    f = RequestField(spec["name"], v, filename=spec.get("fn"), headers=hdr)
     mm = spec.get("mm")
     if mm is not None:
         f.make_multipart(content_disposition=mm["cd"], content_type=mm["ct"], content_location=mm["cl"])
@@ -150,7 +153,10 @@ def real_fields(case):
         if len(d) != len(specs):
             raise HarnessError("dict container with duplicate names")
         return d
-    lst = [real_field(s) for s in specs]
+    shared = {} if case.get("share_hdr") else None
+    lst = [real_field(s, shared) for s in specs]
+    if shared is not None:
+        case["_shared"] = shared
     return tuple(lst) if cont == "tuple" else lst
 
 
@@ -489,6 +495,7 @@ def produce(case):
     route = case.get("route", "direct")
     explicit = case["boundary"]
     fields = real_fields(case)
+    sh = case.pop("_shared", None)
     pin = _PinnedOS()
     saved = _fp.os
     _fp.os = pin
@@ -496,6 +503,8 @@ def produce(case):
         if route == "direct":
             body, ctype = urllib3.encode_multipart_formdata(fields, boundary=explicit)
             extra = {"pin_calls": list(pin.calls) if isinstance(pin.calls, list) else pin.calls}
+            if sh:
+                extra["caller_dicts"] = [(dict(k), dict(v)) for k, v in sh.items() if dict(k) != dict(v)]
             # encoding is a pure function of the fields: the SAME field objects (RequestField instances included)
             # encoded once more with the same boundary must give the same bytes
             if isinstance(ctype, str) and "boundary=" in ctype and isinstance(fields, (list, tuple, dict)):
@@ -578,6 +587,9 @@ def evaluate(case):
             ctype = "multipart/form-data; boundary=" + explicit
     status, viols, info = check_output(case, body, ctype, explicit)
     viols = pre + viols
+    if extra.get("caller_dicts") and not viols:
+        viols.append(("caller-header-dict-changed", dict(base, shapes=sorted({shape_of(s_) for s_ in case["fields"]})),
+                      extra["caller_dicts"][:2], "the mapping handed to RequestField(headers=...) is the caller's: left as it was"))
     if extra.get("again") is not None and not viols:
         ag = extra["again"]
         viols.append(("re-encoding-differs", dict(base, shapes=sorted({shape_of(s_) for s_ in case["fields"]})),
@@ -795,6 +807,7 @@ def pair_variants(thorough):
         lambda n: t3(n, n, V_CRLFDASH_B, "text/plain"),
         lambda n: rf(n, ["s", ""], hdr=H_X, mm=MM0),
         lambda n: rf(n, ["b", b"--"]),
+        lambda n: rf(n, V_X, fn=n, hdr=H_X, mm=MM_FULL),
     ]
     if thorough:
         vs += [
@@ -814,6 +827,9 @@ def fam_f4(firsts, acc, local):
         for b in singles:
             specs = [a, b]
             run_case(_one(specs, container="list"), acc, local)
+            if a["k"] == "rf" and b["k"] == "rf" and a.get("hdr") is not None and a.get("hdr") == b.get("hdr"):
+                # one header dict object handed to both RequestFields
+                run_case(dict(_one(specs, container="list"), share_hdr=True), acc, local)
             if dict_ok(specs):
                 run_case(_one(specs, container="dict", boundary=None), acc, local)
 
